@@ -250,6 +250,32 @@ func (ex *Explorer) noteStub(name string) {
 	ex.mu.Unlock()
 }
 
+func (ex *Explorer) noteBound(name string, v int) {
+	ex.mu.Lock()
+	ex.BoundsUsed[name] = v
+	ex.mu.Unlock()
+}
+
+// noteInput records the domain of a symbolic input; digits in the name are
+// folded ("s0.kind", "s1.kind" -> "s#.kind") so that the table stays small.
+func (ex *Explorer) noteInput(name, domain string) {
+	b := []byte(name)
+	for i, c := range b {
+		if c >= '0' && c <= '9' {
+			b[i] = '#'
+		}
+	}
+	key := string(b)
+	ex.mu.Lock()
+	if old, ok := ex.Inputs[key]; !ok || (old != domain && len(ex.Inputs) < 400) {
+		if ok && old != domain && !strings.Contains(old, domain) {
+			domain = old + " | " + domain
+		}
+		ex.Inputs[key] = domain
+	}
+	ex.mu.Unlock()
+}
+
 func (fr *frame) rangeIter(x value) iter {
 	switch x := x.(type) {
 	case *symStr:
